@@ -2,6 +2,7 @@
 C14 — theorems about the version-clause tokeniser of the dependency parser.
 -/
 import DebInspector.Props.C14
+import DebInspector.Proofs.SplitJoin
 import DebInspector.Proofs.VersionPrint
 
 namespace Props.C14
@@ -170,5 +171,891 @@ example : modelE ⟨"a".toList, "1.0".toList⟩ = .error .valueError := by decid
 example : modelE ⟨"a".toList, ">=".toList⟩ = .error .valueError := by decide +kernel
 example : modelE ⟨"a".toList, ">= 1 <= 2".toList⟩ = .error .valueError := by decide +kernel
 example : modelE ⟨"a".toList, ">= <=".toList⟩ = .error .valueError := by decide +kernel
+
+/-! ## the whole field: `parse_depends (render groups) = expected groups` -/
+
+theorem takeDrop_append (p : Char → Bool) (n rest : Str) (hn : ∀ c ∈ n, p c = true)
+    (hr : headP p rest = false) :
+    takeWhileC p (n ++ rest) = n ∧ dropWhileC p (n ++ rest) = rest := by
+  induction n with
+  | nil =>
+    cases rest with
+    | nil => exact ⟨rfl, rfl⟩
+    | cons c cs =>
+      have : p c = false := by simpa [headP] using hr
+      simp [takeWhileC, dropWhileC, this]
+  | cons c cs ih =>
+    obtain ⟨h1, h2⟩ := ih (fun d hd => hn d (by simp [hd]))
+    simp [takeWhileC, dropWhileC, hn c (by simp), h1, h2]
+
+theorem dropWhile_spaces (sp rest : Str) (hs : ∀ c ∈ sp, isSpace c = true) (hr : headP isSpace rest = false) :
+    dropWhileC isSpace (sp ++ rest) = rest := (takeDrop_append isSpace sp rest hs hr).2
+
+/-- an opening bracket, a non-empty inner text without the closing bracket, the closing bracket -/
+theorem bracketed_ok (o c : Char) (inner rest : Str) (hne : inner ≠ []) (hc : c ∉ inner) :
+    bracketed o c (o :: (inner ++ c :: rest)) = some (inner, rest) := by
+  have hp : ∀ x ∈ inner, (fun y => decide (y ≠ c)) x = true := by
+    intro x hx
+    have : x ≠ c := fun e => hc (e ▸ hx)
+    simp [this]
+  have hr : headP (fun y => decide (y ≠ c)) (c :: rest) = false := by simp [headP]
+  obtain ⟨h1, h2⟩ := takeDrop_append (fun y => decide (y ≠ c)) inner (c :: rest) hp hr
+  have hie : inner.isEmpty = false := by cases inner <;> simp_all
+  simp only [bracketed, if_true]
+  rw [h1, h2]
+  simp [hie, headP]
+
+theorem bracketed_none (o c : Char) (s : Str) (h : headP (· = o) s = false) : bracketed o c s = none := by
+  cases s with
+  | nil => rfl
+  | cons d ds =>
+    have : d ≠ o := by simpa [headP] using h
+    simp [bracketed, this]
+
+
+/-! ### one alternative -/
+
+def clausePart (x : Alt) : Str :=
+  match x.clause with
+  | some (op, v) => x.a ++ '(' :: x.b ++ op ++ x.c ++ v ++ x.d ++ [')']
+  | none => []
+
+def archPart (x : Alt) : Str :=
+  if x.archs.isEmpty then [] else x.e ++ '[' :: join [' '] x.archs ++ [']']
+
+def content (x : Alt) : Str := x.name ++ clausePart x ++ archPart x
+
+theorem renderAlt_eq (x : Alt) : renderAlt x = x.lead ++ content x ++ x.trail := by
+  simp only [renderAlt, content, clausePart, archPart]
+  cases x.clause with
+  | none => simp
+  | some ov => obtain ⟨op, v⟩ := ov; simp
+
+theorem spaces_all (s : Str) (h : spaces s = true) : ∀ c ∈ s, c = ' ' := by
+  intro c hc
+  have := List.all_eq_true.mp h c hc
+  simpa using this
+
+theorem white_all (s : Str) (h : white s = true) : ∀ c ∈ s, isSpace c = true :=
+  fun c hc => List.all_eq_true.mp h c hc
+
+theorem ops7_props (op : Str) (h : ops7.contains op = true) : op ≠ [] ∧ (∀ c ∈ op, isOpChar c = true) := by
+  have hm : op ∈ ops7 := by simpa using h
+  simp only [ops7, List.map_cons, List.map_nil, List.mem_cons, List.not_mem_nil, or_false] at hm
+  rcases hm with rfl | rfl | rfl | rfl | rfl | rfl | rfl <;> exact ⟨by decide, by decide⟩
+
+structure AltFacts (x : Alt) : Prop where
+  nameNe : x.name ≠ []
+  nameCh : ∀ c ∈ x.name, isSpace c = false ∧ c ≠ '(' ∧ c ≠ '[' ∧ c ≠ ',' ∧ c ≠ '|'
+  clause : ∀ op v, x.clause = some (op, v) → ops7.contains op = true ∧ versionOk v = true
+  archs : ∀ a ∈ x.archs, a ≠ [] ∧ ∀ c ∈ a, isSpace c = false ∧ c ≠ ']' ∧ c ≠ ',' ∧ c ≠ '|'
+  lead : ∀ c ∈ x.lead, isSpace c = true
+  trail : ∀ c ∈ x.trail, isSpace c = true
+  sa : spaces x.a = true
+  sb : spaces x.b = true
+  sc : spaces x.c = true
+  sd : spaces x.d = true
+  se : spaces x.e = true
+
+theorem altFacts (x : Alt) (h : wfAlt x = true) : AltFacts x := by
+  simp only [wfAlt, Bool.and_eq_true] at h
+  obtain ⟨⟨⟨⟨⟨⟨⟨⟨⟨hn, hc⟩, ha⟩, hl⟩, ht⟩, sa⟩, sb⟩, sc⟩, sd⟩, se⟩ := h
+  simp only [nameOk, Bool.and_eq_true, Bool.not_eq_true', List.isEmpty_eq_false_iff, List.all_eq_true,
+    bne_iff_ne, ne_eq] at hn
+  refine ⟨hn.1, ?_, ?_, ?_, white_all _ hl, white_all _ ht, sa, sb, sc, sd, se⟩
+  · intro c hc'
+    have := hn.2 c hc'
+    exact ⟨this.1.1.1.1, this.1.1.1.2, this.1.1.2, this.1.2, this.2⟩
+  · intro op v hcl
+    rw [hcl] at hc
+    simpa using hc
+  · intro a ha'
+    have := List.all_eq_true.mp ha a ha'
+    simp only [archOk, Bool.and_eq_true, Bool.not_eq_true', List.isEmpty_eq_false_iff, List.all_eq_true,
+      bne_iff_ne, ne_eq] at this
+    refine ⟨this.1, fun c hc' => ?_⟩
+    have := this.2 c hc'
+    exact ⟨this.1.1.1, this.1.1.2, this.1.2, this.2⟩
+
+
+theorem mem_join1 (sep : Char) (ps : List Str) (c : Char) (h : c ∈ join [sep] ps) : c = sep ∨ ∃ p ∈ ps, c ∈ p := by
+  induction ps with
+  | nil => simp [join] at h
+  | cons p ps ih =>
+    cases ps with
+    | nil => simp only [join] at h; exact Or.inr ⟨p, by simp, h⟩
+    | cons q qs =>
+      rw [join1_cons2] at h
+      simp only [List.mem_append, List.mem_cons] at h
+      rcases h with h | h | h
+      · exact Or.inr ⟨p, by simp, h⟩
+      · exact Or.inl h
+      · rcases ih h with h | ⟨r, hr, hc⟩
+        · exact Or.inl h
+        · exact Or.inr ⟨r, List.mem_cons_of_mem _ hr, hc⟩
+
+theorem join1_ne_nil (sep : Char) (p : Str) (ps : List Str) (h : p ≠ []) : join [sep] (p :: ps) ≠ [] := by
+  cases ps with
+  | nil => simpa [join] using h
+  | cons q qs => rw [join1_cons2]; cases p <;> simp_all
+
+theorem sp_space' : isSpace ' ' = true := by decide
+
+def notName (c : Char) : Bool := c = '(' || c = '[' || c = ' '
+
+def archsOf (r3 : Str) : List Str :=
+  match bracketed '[' ']' r3 with
+  | some (a, _) => splitWs a
+  | none => []
+
+def finish (name : Str) (version : Option Str) (archs : List Str) : Except PyExc Rel :=
+  match version with
+  | none => .ok (.simple name archs)
+  | some v =>
+    match opTokens v with
+    | [op, ver] =>
+      if (([op, ver].filter fun t => t.all isOpChar).length = 1) then .ok (.versioned name op ver archs)
+      else .error .valueError
+    | _ => .error .valueError
+
+theorem parseRelationship_eq (expr : Str) :
+    parseRelationship expr =
+      if (takeWhileC (fun c => !notName c) expr).isEmpty then .error .attributeError else
+      match bracketed '(' ')' (dropWhileC isSpace (dropWhileC (fun c => !notName c) expr)) with
+      | some (v, rest) => finish (takeWhileC (fun c => !notName c) expr) (some v) (archsOf (dropWhileC isSpace rest))
+      | none => finish (takeWhileC (fun c => !notName c) expr) none
+          (archsOf (dropWhileC isSpace (dropWhileC isSpace (dropWhileC (fun c => !notName c) expr)))) := by
+  have hn : (fun c => !notName c) = (fun c => !(decide (c = '(') || decide (c = '[') || decide (c = ' '))) := rfl
+  unfold parseRelationship
+  simp only [hn]
+  by_cases h : (takeWhileC (fun c => !(decide (c = '(') || decide (c = '[') || decide (c = ' '))) expr).isEmpty = true
+  · simp only [h, if_true]
+  · simp only [h, if_false]
+    cases bracketed '(' ')' (dropWhileC isSpace (dropWhileC (fun c => !(decide (c = '(') || decide (c = '[') || decide (c = ' '))) expr)) with
+    | none => rfl
+    | some vr => obtain ⟨v, rest⟩ := vr; rfl
+
+theorem archPart_eq (x : Alt) :
+    archPart x = if x.archs.isEmpty then [] else x.e ++ '[' :: (join [' '] x.archs ++ [']']) := by
+  unfold archPart; split <;> simp
+
+/-- scanning the architecture part -/
+theorem arch_scan (x : Alt) (hf : AltFacts x) :
+    archsOf (dropWhileC isSpace (archPart x)) = x.archs ∧
+    headP (· = '(') (dropWhileC isSpace (archPart x)) = false ∧
+    dropWhileC isSpace (dropWhileC isSpace (archPart x)) = dropWhileC isSpace (archPart x) := by
+  rw [archPart_eq]
+  unfold archsOf
+  cases ha : x.archs with
+  | nil => simp [dropWhileC, bracketed, headP]
+  | cons a as =>
+    simp only [List.isEmpty_cons, Bool.false_eq_true, if_false]
+    have hsp : ∀ c ∈ x.e, isSpace c = true := fun c hc => by rw [spaces_all _ hf.se c hc]; exact sp_space'
+    have hhead : headP isSpace ('[' :: (join [' '] (a :: as) ++ [']'])) = false := by
+      simp only [headP]; decide
+    rw [dropWhile_spaces x.e _ hsp hhead]
+    have harch := hf.archs
+    rw [ha] at harch
+    have hne : join [' '] (a :: as) ≠ [] := join1_ne_nil ' ' a as (harch a (by simp)).1
+    have hnc : ']' ∉ join [' '] (a :: as) := by
+      intro hm
+      rcases mem_join1 ' ' _ _ hm with h | ⟨p, hp, hc⟩
+      · exact absurd h (by decide)
+      · exact ((harch p hp).2 ']' hc).2.1 rfl
+    have e : join [' '] (a :: as) ++ [']'] = join [' '] (a :: as) ++ ']' :: [] := rfl
+    rw [e, bracketed_ok '[' ']' _ [] hne hnc]
+    refine ⟨?_, by simp [headP], ?_⟩
+    · simp only
+      exact splitWs_join (a :: as) (fun w hw => ⟨(harch w hw).1, fun c hc => ((harch w hw).2 c hc).1⟩)
+    · have : isSpace '[' = false := by decide
+      simp [dropWhileC, this]
+
+/-- **one alternative**: the model of `parse_relationship` on the trimmed spelling of an alternative —
+name, optional `( operator version )`, optional `[ architectures ]`, any amount of U+0020 in the five
+places — returns exactly the alternative's structure -/
+theorem parseRel_content (x : Alt) (hf : AltFacts x) : parseRelationship (content x) = .ok (expectedAlt x) := by
+  have hname : ∀ c ∈ x.name, (fun c => !notName c) c = true := by
+    intro c hc
+    obtain ⟨h1, h2, h3, _, _⟩ := hf.nameCh c hc
+    have h4 : c ≠ ' ' := by intro e; subst e; rw [sp_space'] at h1; cases h1
+    simp [notName, h2, h3, h4]
+  have hspA : ∀ s : Str, spaces s = true → ∀ c ∈ s, isSpace c = true :=
+    fun s hs c hc => by rw [spaces_all s hs c hc]; exact sp_space'
+  have hnameE : x.name.isEmpty = false := by have := hf.nameNe; cases hn : x.name <;> simp_all
+  obtain ⟨harchs, hnoparen, hidem⟩ := arch_scan x hf
+  rw [parseRelationship_eq]
+  cases hcl : x.clause with
+  | none =>
+    have hc : content x = x.name ++ archPart x := by simp [content, clausePart, hcl]
+    have hrest : headP (fun c => !notName c) (archPart x) = false := by
+      rw [archPart_eq]
+      split
+      · rfl
+      · cases he : x.e with
+        | nil => simp [headP, notName]
+        | cons d ds =>
+          have : d = ' ' := spaces_all _ hf.se d (by rw [he]; simp)
+          simp [headP, notName, this]
+    obtain ⟨h1, h2⟩ := takeDrop_append _ x.name (archPart x) hname hrest
+    simp only [hc, h1, h2, hnameE, Bool.false_eq_true, if_false]
+    rw [bracketed_none '(' ')' _ hnoparen]
+    simp only [hidem, harchs, finish, expectedAlt, hcl]
+  | some ov =>
+    obtain ⟨op, v⟩ := ov
+    obtain ⟨hop, hv⟩ := hf.clause op v hcl
+    obtain ⟨hopne, hopc⟩ := ops7_props op hop
+    have hc : content x = x.name ++ (x.a ++ '(' :: ((x.b ++ op ++ x.c ++ v ++ x.d) ++ ')' :: archPart x)) := by
+      simp [content, clausePart, hcl, List.append_assoc]
+    have hrest : headP (fun c => !notName c)
+        (x.a ++ '(' :: ((x.b ++ op ++ x.c ++ v ++ x.d) ++ ')' :: archPart x)) = false := by
+      cases he : x.a with
+      | nil => simp [headP, notName]
+      | cons d ds =>
+        have : d = ' ' := spaces_all _ hf.sa d (by rw [he]; simp)
+        simp [headP, notName, this]
+    obtain ⟨h1, h2⟩ := takeDrop_append _ x.name _ hname hrest
+    have hhead : headP isSpace ('(' :: ((x.b ++ op ++ x.c ++ v ++ x.d) ++ ')' :: archPart x)) = false := by
+      simp only [headP]; decide
+    have hinner_ne : x.b ++ op ++ x.c ++ v ++ x.d ≠ [] := by
+      cases op with
+      | nil => exact absurd rfl hopne
+      | cons o os => simp
+    have hvf := hv
+    simp only [versionOk, Bool.and_eq_true, Bool.not_eq_true', List.isEmpty_eq_false_iff, List.all_eq_true,
+      bne_iff_ne, ne_eq] at hvf
+    have hinner_nc : ')' ∉ x.b ++ op ++ x.c ++ v ++ x.d := by
+      intro hm
+      simp only [List.mem_append] at hm
+      rcases hm with (((h | h) | h) | h) | h
+      · exact absurd (spaces_all _ hf.sb _ h) (by decide)
+      · have := hopc _ h; simp [isOpChar] at this
+      · exact absurd (spaces_all _ hf.sc _ h) (by decide)
+      · exact (hvf.2 _ h).1.1.1.1.1.2 rfl
+      · exact absurd (spaces_all _ hf.sd _ h) (by decide)
+    simp only [hc, h1, h2, hnameE, Bool.false_eq_true, if_false]
+    rw [dropWhile_spaces x.a _ (hspA x.a hf.sa) hhead, bracketed_ok '(' ')' _ (archPart x) hinner_ne hinner_nc]
+    simp only [harchs, finish]
+    rw [opTokens_good x.b op x.c v x.d hf.sb hf.sc hf.sd ⟨hopne, hopc⟩ hv]
+    have hopall : op.all isOpChar = true := List.all_eq_true.mpr hopc
+    have hvall : v.all isOpChar = false := by
+      cases v with
+      | nil => exact absurd rfl hvf.1
+      | cons d ds =>
+        have h := hvf.2 d (by simp)
+        have : isOpChar d = false := by simp [isOpChar, h.1.1.2, h.1.2, h.2]
+        simp [this]
+    simp [hopall, hvall, expectedAlt, hcl]
+
+
+/-! ### groups and the whole field -/
+
+theorem mapExcept_ok {α β} (f : α → Except PyExc β) (g : α → β) (l : List α) (h : ∀ a ∈ l, f a = .ok (g a)) :
+    mapExcept f l = .ok (l.map g) := by
+  induction l with
+  | nil => rfl
+  | cons a as ih =>
+    simp [mapExcept, h a (by simp), ih (fun x hx => h x (by simp [hx]))]
+
+theorem mapExcept_map_ok {α β γ} (f : β → Except PyExc γ) (hfun : α → β) (g : α → γ) (l : List α)
+    (h : ∀ a ∈ l, f (hfun a) = .ok (g a)) : mapExcept f (l.map hfun) = .ok (l.map g) := by
+  induction l with
+  | nil => rfl
+  | cons a as ih =>
+    simp [mapExcept, h a (by simp), ih (fun x hx => h x (by simp [hx]))]
+
+theorem strip_decomp (s : Str) : ∃ w1 w2, (∀ c ∈ w1, isSpace c = true) ∧ (∀ c ∈ w2, isSpace c = true) ∧
+    s = w1 ++ (strip s ++ w2) := by
+  obtain ⟨w1, hw1, e1⟩ := lstrip_decomp s
+  obtain ⟨w2, hw2, e2⟩ := rstrip_decomp (lstrip s)
+  exact ⟨w1, w2, hw1, hw2, by unfold strip; rw [← e2, ← e1]⟩
+
+theorem mem_strip_iff (s : Str) (c : Char) (hc : isSpace c = false) : c ∈ strip s ↔ c ∈ s := by
+  obtain ⟨w1, w2, h1, h2, e⟩ := strip_decomp s
+  constructor
+  · intro h; rw [e]; simp [h]
+  · intro h
+    rw [e] at h
+    simp only [List.mem_append] at h
+    rcases h with h | h | h
+    · rw [h1 c h] at hc; cases hc
+    · exact h
+    · rw [h2 c h] at hc; cases hc
+
+theorem content_chars (x : Alt) (hf : AltFacts x) : ∀ c ∈ renderAlt x, c ≠ ',' ∧ c ≠ '|' := by
+  intro c hc
+  have hws : ∀ w : Str, (∀ d ∈ w, isSpace d = true) → c ∈ w → c ≠ ',' ∧ c ≠ '|' := by
+    intro w hw hm
+    have := hw c hm
+    constructor <;> (intro e; subst e; revert this; decide)
+  have hsp : ∀ w : Str, spaces w = true → c ∈ w → c ≠ ',' ∧ c ≠ '|' := by
+    intro w hw hm
+    rw [spaces_all w hw c hm]; exact ⟨by decide, by decide⟩
+  rw [renderAlt_eq] at hc
+  simp only [content, List.mem_append] at hc
+  rcases hc with (hc | (hc | hc) | hc) | hc
+  · exact hws _ hf.lead hc
+  · exact ⟨(hf.nameCh c hc).2.2.2.1, (hf.nameCh c hc).2.2.2.2⟩
+  · unfold clausePart at hc
+    cases hcl : x.clause with
+    | none => rw [hcl] at hc; cases hc
+    | some ov =>
+      obtain ⟨op, v⟩ := ov
+      rw [hcl] at hc
+      obtain ⟨hop, hv⟩ := hf.clause op v hcl
+      obtain ⟨_, hopc⟩ := ops7_props op hop
+      simp only [versionOk, Bool.and_eq_true, Bool.not_eq_true', List.isEmpty_eq_false_iff, List.all_eq_true,
+        bne_iff_ne, ne_eq] at hv
+      simp only [List.mem_append, List.mem_cons, List.mem_singleton, List.not_mem_nil, or_false, or_assoc] at hc
+      rcases hc with hc | hc | hc | hc | hc | hc | hc | hc
+      · exact hsp _ hf.sa hc
+      · subst hc; exact ⟨by decide, by decide⟩
+      · exact hsp _ hf.sb hc
+      · have := hopc c hc
+        constructor <;> (intro e; subst e; simp [isOpChar] at this)
+      · exact hsp _ hf.sc hc
+      · exact ⟨(hv.2 c hc).1.1.1.1.2, (hv.2 c hc).1.1.1.2⟩
+      · exact hsp _ hf.sd hc
+      · subst hc; exact ⟨by decide, by decide⟩
+  · rw [archPart_eq] at hc
+    split at hc
+    · cases hc
+    · simp only [List.mem_append, List.mem_cons, List.mem_singleton, List.not_mem_nil, or_false, or_assoc] at hc
+      rcases hc with hc | hc | hc | hc
+      · exact hsp _ hf.se hc
+      · subst hc; exact ⟨by decide, by decide⟩
+      · rcases mem_join1 ' ' _ _ hc with h | ⟨a, ha, hca⟩
+        · subst h; exact ⟨by decide, by decide⟩
+        · exact ⟨((hf.archs a ha).2 c hca).2.2.1, ((hf.archs a ha).2 c hca).2.2.2⟩
+      · subst hc; exact ⟨by decide, by decide⟩
+  · exact hws _ hf.trail hc
+
+
+theorem lastP_of_all (p : Char → Bool) (s : Str) (hne : s ≠ []) (h : ∀ c ∈ s, p c = true) : lastP p s = true := by
+  induction s with
+  | nil => exact absurd rfl hne
+  | cons c cs ih =>
+    cases cs with
+    | nil => simpa [lastP] using h c (by simp)
+    | cons d ds => simpa [lastP] using ih (by simp) (fun x hx => h x (by simp [hx]))
+
+theorem content_ends (x : Alt) (hf : AltFacts x) :
+    headP isSpace (content x) = false ∧ lastP (fun c => !isSpace c) (content x) = true := by
+  constructor
+  · unfold content
+    cases hn : x.name with
+    | nil => exact absurd hn hf.nameNe
+    | cons c cs =>
+      have := (hf.nameCh c (by rw [hn]; simp)).1
+      simp [headP, this]
+  · unfold content
+    rw [archPart_eq]
+    by_cases ha : x.archs.isEmpty = true
+    · simp only [ha, if_true, List.append_nil]
+      unfold clausePart
+      cases hcl : x.clause with
+      | none =>
+        simp only [List.append_nil]
+        exact lastP_of_all _ _ hf.nameNe (fun c hc => by simp [(hf.nameCh c hc).1])
+      | some ov =>
+        obtain ⟨op, v⟩ := ov
+        have e : x.name ++ (x.a ++ '(' :: x.b ++ op ++ x.c ++ v ++ x.d ++ [')']) =
+            (x.name ++ (x.a ++ '(' :: x.b ++ op ++ x.c ++ v ++ x.d)) ++ ')' :: [] := by simp [List.append_assoc]
+        simp only
+        rw [e, lastP_append_cons]
+        simp only [lastP_single]; decide
+    · simp only [ha, Bool.false_eq_true, if_false]
+      have e : x.name ++ clausePart x ++ (x.e ++ '[' :: (join [' '] x.archs ++ [']'])) =
+          (x.name ++ clausePart x ++ (x.e ++ '[' :: join [' '] x.archs)) ++ ']' :: [] := by simp [List.append_assoc]
+      rw [e, lastP_append_cons]
+      simp only [lastP_single]; decide
+
+theorem strip_renderAlt (x : Alt) (hf : AltFacts x) : strip (renderAlt x) = content x := by
+  rw [renderAlt_eq]
+  exact strip_core _ _ _ hf.lead hf.trail (content_ends x hf).1 (content_ends x hf).2
+
+theorem content_ne_nil (x : Alt) (hf : AltFacts x) : content x ≠ [] := by
+  unfold content
+  cases hn : x.name with
+  | nil => exact absurd hn hf.nameNe
+  | cons c cs => simp
+
+theorem bar_not_space : isSpace '|' = false := by decide
+theorem comma_not_space : isSpace ',' = false := by decide
+
+/-- **one group**: `parse_alternatives` on the trimmed `|`-join of the group's alternatives -/
+theorem parseAlternatives_group (g : List Alt) (hne : g ≠ []) (hg : ∀ x ∈ g, AltFacts x) :
+    parseAlternatives (strip (join ['|'] (g.map renderAlt))) = .ok (expectedGroup g) := by
+  have hnobar : ∀ p ∈ g.map renderAlt, '|' ∉ p := by
+    intro p hp hm
+    simp only [List.mem_map] at hp
+    obtain ⟨x, hx, rfl⟩ := hp
+    exact (content_chars x (hg x hx) '|' hm).2 rfl
+  unfold parseAlternatives
+  cases g with
+  | nil => exact absurd rfl hne
+  | cons x rest =>
+    cases rest with
+    | nil =>
+      have hf := hg x (by simp)
+      simp only [List.map_cons, List.map_nil, join]
+      rw [strip_renderAlt x hf]
+      have hnb : (content x).contains '|' = false := by
+        cases hc : (content x).contains '|' with
+        | false => rfl
+        | true =>
+          have hm : '|' ∈ content x := by simpa using hc
+          rw [← strip_renderAlt x hf, mem_strip_iff _ _ bar_not_space] at hm
+          exact absurd hm (hnobar _ (by simp))
+      simp only [hnb, Bool.false_eq_true, if_false, expectedGroup]
+      exact parseRel_content x hf
+    | cons y ys =>
+      have hbar : (strip (join ['|'] ((x :: y :: ys).map renderAlt))).contains '|' = true := by
+        have : '|' ∈ strip (join ['|'] ((x :: y :: ys).map renderAlt)) := by
+          rw [mem_strip_iff _ _ bar_not_space]
+          simp only [List.map_cons, join1_cons2]
+          simp
+        simpa using this
+      simp only [hbar, if_true]
+      have hsplit : splitStripNonEmpty '|' (strip (join ['|'] ((x :: y :: ys).map renderAlt))) =
+          (x :: y :: ys).map content := by
+        unfold splitStripNonEmpty
+        rw [map_strip_splitChar_strip '|' bar_not_space, splitChar_join '|' _ (by simp) hnobar, List.map_map]
+        have : (strip ∘ renderAlt) = fun z => strip (renderAlt z) := rfl
+        rw [List.filter_eq_self.mpr]
+        · apply List.map_congr_left
+          intro z hz
+          exact strip_renderAlt z (hg z hz)
+        · intro s hs
+          simp only [List.mem_map, Function.comp] at hs
+          obtain ⟨z, hz, rfl⟩ := hs
+          rw [strip_renderAlt z (hg z hz)]
+          have := content_ne_nil z (hg z hz)
+          cases hc : content z <;> simp_all
+      rw [hsplit, mapExcept_map_ok parseRelationship content expectedAlt _
+        (fun z hz => parseRel_content z (hg z hz))]
+      rfl
+
+theorem commaless (g : List Alt) (hg : ∀ x ∈ g, AltFacts x) : ',' ∉ join ['|'] (g.map renderAlt) := by
+  intro hm
+  rcases mem_join1 '|' _ _ hm with h | ⟨p, hp, hc⟩
+  · exact absurd h (by decide)
+  · simp only [List.mem_map] at hp
+    obtain ⟨x, hx, rfl⟩ := hp
+    exact (content_chars x (hg x hx) ',' hc).1 rfl
+
+theorem group_strip_ne_nil (g : List Alt) (hne : g ≠ []) (hg : ∀ x ∈ g, AltFacts x) :
+    strip (join ['|'] (g.map renderAlt)) ≠ [] := by
+  cases g with
+  | nil => exact absurd rfl hne
+  | cons x rest =>
+    have hf := hg x (by simp)
+    -- the first character of the name survives trimming
+    cases hn : x.name with
+    | nil => exact absurd hn hf.nameNe
+    | cons c cs =>
+      have hcs : isSpace c = false := (hf.nameCh c (by rw [hn]; simp)).1
+      have hm : c ∈ join ['|'] ((x :: rest).map renderAlt) := by
+        have : c ∈ renderAlt x := by rw [renderAlt_eq]; simp [content, hn]
+        cases rest with
+        | nil => simpa [join] using this
+        | cons y ys => simp only [List.map_cons, join1_cons2]; simp [this]
+      have := (mem_strip_iff _ c hcs).mpr hm
+      intro e; rw [e] at this; cases this
+
+/-- **C14, structure** — for every relationship field of the grammar (any number of groups and
+alternatives, any names, operators, versions, architecture lists, any white-space layout) the model of
+`parse_depends` returns exactly the structure the field spells -/
+theorem parseDepends_render (gs : List (List Alt)) (h : ∀ g ∈ gs, g ≠ [] ∧ ∀ x ∈ g, AltFacts x) :
+    parseDepends (render gs) = .ok (expected gs) := by
+  unfold parseDepends render
+  have hsplit : splitStripNonEmpty ',' (join [','] (gs.map fun g => join ['|'] (g.map renderAlt))) =
+      gs.map fun g => strip (join ['|'] (g.map renderAlt)) := by
+    unfold splitStripNonEmpty
+    cases gs with
+    | nil => simp [join, splitChar, strip, lstrip, rstrip]
+    | cons g rest =>
+      rw [splitChar_join ',' _ (by simp) (by
+        intro p hp
+        simp only [List.mem_map] at hp
+        obtain ⟨g', hg', rfl⟩ := hp
+        exact commaless g' (h g' hg').2), List.map_map]
+      rw [List.filter_eq_self.mpr]
+      · rfl
+      · intro s hs
+        simp only [List.mem_map, Function.comp] at hs
+        obtain ⟨g', hg', rfl⟩ := hs
+        have := group_strip_ne_nil g' (h g' hg').1 (h g' hg').2
+        cases hc : strip (join ['|'] (g'.map renderAlt)) <;> simp_all
+  rw [hsplit, mapExcept_map_ok parseAlternatives (fun g => strip (join ['|'] (g.map renderAlt))) expectedGroup _
+    (fun g hg => parseAlternatives_group g (h g hg).1 (h g hg).2)]
+  rfl
+
+theorem sound_structure (i : Input) (h : wf i = true) : parseDepends i.text = .ok (expected i.groups) := by
+  simp only [wf, Bool.and_eq_true, List.all_eq_true, beq_iff_eq] at h
+  rw [h.2]
+  apply parseDepends_render
+  intro g hg
+  have := h.1 g hg
+  simp only [Bool.and_eq_true, Bool.not_eq_true', List.isEmpty_eq_false_iff, List.all_eq_true] at this
+  exact ⟨this.1, fun x hx => altFacts x (this.2 x hx)⟩
+
+
+
+/-! ### canonical string form -/
+
+mutual
+theorem relBeq_refl : ∀ r : Rel, relBeq r r = true
+  | .simple n a => by simp [relBeq]
+  | .versioned n o v a => by simp [relBeq]
+  | .or rs => by simp only [relBeq]; exact relsBeq_refl rs
+  | .and rs => by simp only [relBeq]; exact relsBeq_refl rs
+theorem relsBeq_refl : ∀ rs : List Rel, relsBeq rs rs = true
+  | [] => by simp [relsBeq]
+  | r :: rs => by simp only [relsBeq, Bool.and_eq_true]; exact ⟨relBeq_refl r, relsBeq_refl rs⟩
+end
+
+theorem relStrs_eq_map (rs : List Rel) : relStrs rs = rs.map relStr := by
+  induction rs with
+  | nil => rfl
+  | cons r rs ih => simp [relStrs, ih]
+
+theorem relStr_expectedAlt (x : Alt) : relStr (expectedAlt x) = canonAlt x := by
+  unfold expectedAlt canonAlt
+  cases x.clause with
+  | none => simp [relStr, archSuffix]
+  | some ov => obtain ⟨op, v⟩ := ov; simp [relStr, archSuffix, List.append_assoc]
+
+theorem relStr_expectedGroup (g : List Alt) (hne : g ≠ []) :
+    relStr (expectedGroup g) = join " | ".toList (g.map canonAlt) := by
+  cases g with
+  | nil => exact absurd rfl hne
+  | cons x rest =>
+    cases rest with
+    | nil => simp [expectedGroup, relStr_expectedAlt, join]
+    | cons y ys =>
+      simp only [expectedGroup, relStr, relStrs_eq_map, List.map_map]
+      congr 1
+      apply List.map_congr_left
+      intro z _
+      exact relStr_expectedAlt z
+
+theorem relStr_expected (gs : List (List Alt)) (h : ∀ g ∈ gs, g ≠ []) : relStr (expected gs) = canon gs := by
+  simp only [expected, relStr, relStrs_eq_map, List.map_map, canon]
+  congr 1
+  apply List.map_congr_left
+  intro g hg
+  exact relStr_expectedGroup g (h g hg)
+
+
+/-! ### the canonical spelling parses back: it is the rendering of a particular layout -/
+
+def relay (x : Alt) (l t : Str) : Alt :=
+  { name := x.name, clause := x.clause, archs := x.archs, lead := l, a := [' '], b := [], c := [' '], d := [],
+    e := [' '], trail := t }
+
+theorem renderAlt_relay (x : Alt) (l t : Str) : renderAlt (relay x l t) = l ++ canonAlt x ++ t := by
+  unfold renderAlt relay canonAlt
+  cases x.clause with
+  | none => simp
+  | some ov => obtain ⟨op, v⟩ := ov; simp [List.append_assoc]
+
+theorem expectedAlt_relay (x : Alt) (l t : Str) : expectedAlt (relay x l t) = expectedAlt x := rfl
+
+theorem altFacts_relay (x : Alt) (l t : Str) (hf : AltFacts x) (hl : ∀ c ∈ l, isSpace c = true)
+    (ht : ∀ c ∈ t, isSpace c = true) : AltFacts (relay x l t) :=
+  { nameNe := hf.nameNe, nameCh := hf.nameCh, clause := hf.clause, archs := hf.archs, lead := hl, trail := ht,
+    sa := by simp [relay, spaces], sb := by simp [relay, spaces], sc := by simp [relay, spaces],
+    sd := by simp [relay, spaces], se := by simp [relay, spaces] }
+
+def layRest : List Alt → List Alt
+  | [] => []
+  | [y] => [relay y [' '] []]
+  | y :: z :: zs => relay y [' '] [' '] :: layRest (z :: zs)
+
+def layGroup (l0 : Str) : List Alt → List Alt
+  | [] => []
+  | [x] => [relay x l0 []]
+  | x :: y :: ys => relay x l0 [' '] :: layRest (y :: ys)
+
+theorem layRest_render (g : List Alt) (hne : g ≠ []) :
+    join ['|'] ((layRest g).map renderAlt) = ' ' :: join " | ".toList (g.map canonAlt) := by
+  induction g with
+  | nil => exact absurd rfl hne
+  | cons y rest ih =>
+    cases rest with
+    | nil => simp [layRest, join, renderAlt_relay]
+    | cons z zs =>
+      have := ih (by simp)
+      simp only [layRest, List.map_cons] at this ⊢
+      cases hl : layRest (z :: zs) with
+      | nil => cases zs <;> simp [layRest] at hl
+      | cons w ws =>
+        rw [hl] at this
+        simp only [List.map_cons] at this
+        simp only [List.map_cons]
+        rw [join1_cons2, this, renderAlt_relay]
+        simp [join, List.append_assoc]
+
+theorem layGroup_render (l0 : Str) (g : List Alt) (hne : g ≠ []) :
+    join ['|'] ((layGroup l0 g).map renderAlt) = l0 ++ join " | ".toList (g.map canonAlt) := by
+  cases g with
+  | nil => exact absurd rfl hne
+  | cons x rest =>
+    cases rest with
+    | nil => simp [layGroup, join, renderAlt_relay]
+    | cons y ys =>
+      have := layRest_render (y :: ys) (by simp)
+      simp only [layGroup, List.map_cons] at this ⊢
+      cases hl : layRest (y :: ys) with
+      | nil => cases ys <;> simp [layRest] at hl
+      | cons w ws =>
+        rw [hl] at this
+        simp only [List.map_cons] at this
+        simp only [List.map_cons]
+        rw [join1_cons2, this, renderAlt_relay]
+        simp [join, List.append_assoc]
+
+theorem layRest_facts (g : List Alt) (hg : ∀ x ∈ g, AltFacts x) : ∀ x ∈ layRest g, AltFacts x := by
+  induction g with
+  | nil => intro x hx; cases hx
+  | cons y rest ih =>
+    have hsp : ∀ c ∈ [' '], isSpace c = true := by intro c hc; simp at hc; subst hc; decide
+    cases rest with
+    | nil =>
+      intro x hx
+      simp only [layRest, List.mem_singleton] at hx
+      subst hx
+      exact altFacts_relay y _ _ (hg y (by simp)) hsp (by intro c hc; cases hc)
+    | cons z zs =>
+      intro x hx
+      simp only [layRest, List.mem_cons] at hx
+      rcases hx with rfl | hx
+      · exact altFacts_relay y _ _ (hg y (by simp)) hsp hsp
+      · exact ih (fun w hw => hg w (List.mem_cons_of_mem _ hw)) x (by simpa [layRest] using hx)
+
+theorem layGroup_facts (l0 : Str) (hl0 : ∀ c ∈ l0, isSpace c = true) (g : List Alt) (hg : ∀ x ∈ g, AltFacts x) :
+    ∀ x ∈ layGroup l0 g, AltFacts x := by
+  have hsp : ∀ c ∈ [' '], isSpace c = true := by intro c hc; simp at hc; subst hc; decide
+  cases g with
+  | nil => intro x hx; cases hx
+  | cons y rest =>
+    cases rest with
+    | nil =>
+      intro x hx
+      simp only [layGroup, List.mem_singleton] at hx
+      subst hx
+      exact altFacts_relay y _ _ (hg y (by simp)) hl0 (by intro c hc; cases hc)
+    | cons z zs =>
+      intro x hx
+      simp only [layGroup, List.mem_cons] at hx
+      rcases hx with rfl | hx
+      · exact altFacts_relay y _ _ (hg y (by simp)) hl0 hsp
+      · exact layRest_facts (z :: zs) (fun w hw => hg w (List.mem_cons_of_mem _ hw)) x (by simpa using hx)
+
+theorem layRest_expected (g : List Alt) : (layRest g).map expectedAlt = g.map expectedAlt := by
+  induction g with
+  | nil => rfl
+  | cons y rest ih =>
+    cases rest with
+    | nil => simp [layRest, expectedAlt_relay]
+    | cons z zs => simp only [layRest, List.map_cons, expectedAlt_relay, ih]
+
+theorem layGroup_expected (l0 : Str) (g : List Alt) : expectedGroup (layGroup l0 g) = expectedGroup g := by
+  cases g with
+  | nil => rfl
+  | cons x rest =>
+    cases rest with
+    | nil => simp [layGroup, expectedGroup, expectedAlt_relay]
+    | cons y ys =>
+      cases hl : layRest (y :: ys) with
+      | nil => cases ys <;> simp [layRest] at hl
+      | cons w ws =>
+        have := layRest_expected (y :: ys)
+        rw [hl] at this
+        simp only [layGroup, hl, expectedGroup, List.map_cons, expectedAlt_relay]
+        simp only [List.map_cons] at this
+        rw [this]
+
+theorem layGroup_ne_nil (l0 : Str) (g : List Alt) (hne : g ≠ []) : layGroup l0 g ≠ [] := by
+  cases g with
+  | nil => exact absurd rfl hne
+  | cons x rest => cases rest <;> simp [layGroup]
+
+/-- the layout whose rendering is the canonical spelling -/
+def layDoc : List (List Alt) → List (List Alt)
+  | [] => []
+  | g :: gs => layGroup [] g :: gs.map (layGroup [' '])
+
+theorem join_comma_space (ps : List Str) (p : Str) :
+    join ", ".toList (p :: ps) = join [','] (p :: ps.map (' ' :: ·)) := by
+  induction ps generalizing p with
+  | nil => simp [join]
+  | cons q qs ih =>
+    have e1 : join ", ".toList (p :: q :: qs) = p ++ ", ".toList ++ join ", ".toList (q :: qs) := by simp [join]
+    rw [e1, ih q]
+    simp only [List.map_cons, join1_cons2]
+    cases qs with
+    | nil => simp [join]
+    | cons r rs => simp [join1_cons2, List.append_assoc]
+
+theorem canon_eq_render (gs : List (List Alt)) (h : ∀ g ∈ gs, g ≠ []) : canon gs = render (layDoc gs) := by
+  unfold canon render
+  cases gs with
+  | nil => rfl
+  | cons g rest =>
+    simp only [List.map_cons, layDoc, List.map_map]
+    rw [join_comma_space, layGroup_render [] g (h g (by simp))]
+    simp only [List.nil_append, List.map_map]
+    congr 2
+    apply List.map_congr_left
+    intro g' hg'
+    simp only [Function.comp]
+    rw [layGroup_render [' '] g' (h g' (List.mem_cons_of_mem _ hg'))]
+    rfl
+
+theorem expected_layDoc (gs : List (List Alt)) : expected (layDoc gs) = expected gs := by
+  unfold expected
+  cases gs with
+  | nil => rfl
+  | cons g rest =>
+    simp only [layDoc, List.map_cons, List.map_map, layGroup_expected]
+    congr 2
+    apply List.map_congr_left
+    intro g' _
+    simp [Function.comp, layGroup_expected]
+
+/-- the canonical spelling parses back to the same structure -/
+theorem parseDepends_canon (gs : List (List Alt)) (h : ∀ g ∈ gs, g ≠ [] ∧ ∀ x ∈ g, AltFacts x) :
+    parseDepends (canon gs) = .ok (expected gs) := by
+  rw [canon_eq_render gs (fun g hg => (h g hg).1), ← expected_layDoc]
+  apply parseDepends_render
+  have hsp : ∀ c ∈ [' '], isSpace c = true := by intro c hc; simp at hc; subst hc; decide
+  cases gs with
+  | nil => intro g hg; cases hg
+  | cons g rest =>
+    intro g' hg'
+    simp only [layDoc, List.mem_cons, List.mem_map] at hg'
+    rcases hg' with rfl | ⟨g0, hg0, rfl⟩
+    · exact ⟨layGroup_ne_nil _ _ (h g (by simp)).1, layGroup_facts _ (by intro c hc; cases hc) _ (h g (by simp)).2⟩
+    · exact ⟨layGroup_ne_nil _ _ (h g0 (List.mem_cons_of_mem _ hg0)).1,
+        layGroup_facts _ hsp _ (h g0 (List.mem_cons_of_mem _ hg0)).2⟩
+
+
+/-! ### names -/
+
+theorem relNamesL_eq (rs : List Rel) : relNamesL rs = rs.flatMap relNames := by
+  induction rs with
+  | nil => rfl
+  | cons r rs ih => simp [relNamesL, ih]
+
+theorem relNames_expectedGroup (g : List Alt) : relNames (expectedGroup g) = g.map (·.name) := by
+  have hx : ∀ x : Alt, relNames (expectedAlt x) = [x.name] := by
+    intro x; unfold expectedAlt; cases x.clause with
+    | none => rfl
+    | some ov => rfl
+  cases g with
+  | nil => simp [expectedGroup, relNames, relNamesL]
+  | cons x rest =>
+    cases rest with
+    | nil => simp [expectedGroup, hx]
+    | cons y ys =>
+      simp only [expectedGroup, relNames, relNamesL_eq, List.flatMap_map]
+      simp only [hx, List.flatMap_cons, List.map_cons, List.singleton_append]
+      congr 2
+      induction ys with
+      | nil => rfl
+      | cons z zs ihz => simp [List.flatMap_cons, ihz]
+
+theorem relNames_expected (gs : List (List Alt)) : relNames (expected gs) = mentioned gs := by
+  simp only [expected, relNames, relNamesL_eq, List.flatMap_map, mentioned, relNames_expectedGroup]
+
+theorem mem_dedup (l : List Str) (x : Str) : x ∈ dedup l ↔ x ∈ l := by
+  induction l with
+  | nil => simp [dedup]
+  | cons a as ih =>
+    unfold dedup
+    split
+    · rename_i h
+      have ha : a ∈ as := by simpa using h
+      rw [ih]
+      constructor
+      · intro h'; exact List.mem_cons_of_mem _ h'
+      · intro h'
+        rcases List.mem_cons.mp h' with rfl | h'
+        · exact ha
+        · exact h'
+    · simp [ih]
+
+theorem nodup_dedup (l : List Str) : (dedup l).Nodup := by
+  induction l with
+  | nil => simp [dedup]
+  | cons a as ih =>
+    unfold dedup
+    split
+    · exact ih
+    · rename_i h
+      have ha : a ∉ as := by simpa using h
+      exact List.nodup_cons.mpr ⟨fun hm => ha ((mem_dedup as a).mp hm), ih⟩
+
+theorem dedup_of_nodup (l : List Str) (h : l.Nodup) : dedup l = l := by
+  induction l with
+  | nil => rfl
+  | cons a as ih =>
+    have h' := List.nodup_cons.mp h
+    unfold dedup
+    have : as.contains a = false := by simpa using h'.1
+    simp only [this, Bool.false_eq_true, if_false, ih h'.2]
+
+theorem insertSorted_perm (x : Str) (l : List Str) : (insertSorted x l).Perm (x :: l) := by
+  induction l with
+  | nil => simp [insertSorted]
+  | cons y ys ih =>
+    unfold insertSorted
+    split
+    · exact List.Perm.refl _
+    · exact (List.Perm.cons y ih).trans (List.Perm.swap x y ys)
+
+theorem foldl_insertSorted_perm (l acc : List Str) :
+    (l.foldl (fun acc x => insertSorted x acc) acc).Perm (l ++ acc) := by
+  induction l generalizing acc with
+  | nil => simp
+  | cons x xs ih =>
+    simp only [List.foldl_cons]
+    refine (ih (insertSorted x acc)).trans ?_
+    refine (List.Perm.append_left xs (insertSorted_perm x acc)).trans ?_
+    simp only [List.cons_append]
+    exact List.perm_middle
+
+theorem sortStrs_perm (l : List Str) : (sortStrs l).Perm l := by
+  have := foldl_insertSorted_perm l []
+  simpa [sortStrs] using this
+
+/-- **C14** — for every relationship field of the grammar the model satisfies the whole property:
+the parsed structure is exactly the one spelled, its string form is the canonical single-spaced
+spelling, that spelling parses back to the same structure, and the reported names are exactly the
+names mentioned (each once). -/
+theorem sound (i : Input) : holdsOn i (model i) = true := by
+  unfold holdsOn
+  cases hw : wf i with
+  | false => rfl
+  | true =>
+    have hstruct := sound_structure i hw
+    have hfacts : ∀ g ∈ i.groups, g ≠ [] ∧ ∀ x ∈ g, AltFacts x := by
+      simp only [wf, Bool.and_eq_true, List.all_eq_true, beq_iff_eq] at hw
+      intro g hg
+      have := hw.1 g hg
+      simp only [Bool.and_eq_true, Bool.not_eq_true', List.isEmpty_eq_false_iff, List.all_eq_true] at this
+      exact ⟨this.1, fun x hx => altFacts x (this.2 x hx)⟩
+    have hstr := relStr_expected i.groups (fun g hg => (hfacts g hg).1)
+    have hre := parseDepends_canon i.groups hfacts
+    simp only [model, hstruct, Bool.not_true, Bool.false_or, hstr, hre, relNames_expected]
+    have hperm := sortStrs_perm (dedup (mentioned i.groups))
+    have hnd : (sortStrs (dedup (mentioned i.groups))).Nodup := hperm.nodup_iff.mpr (nodup_dedup _)
+    have hmem : ∀ x, x ∈ sortStrs (dedup (mentioned i.groups)) ↔ x ∈ mentioned i.groups :=
+      fun x => (hperm.mem_iff).trans (mem_dedup _ x)
+    simp only [relBeq_refl, exceptRelBeq, beq_self_eq_true, Bool.true_and, Bool.and_eq_true, List.all_eq_true,
+      List.contains_iff_mem, dedup_of_nodup _ hnd, and_true]
+    exact ⟨fun x hx => (hmem x).mp hx, fun x hx => (hmem x).mpr hx⟩
+
 
 end Props.C14
